@@ -284,8 +284,28 @@ func boolTerm(v value) string {
 }
 
 // symBinop implements binary operators when at least one operand is symbolic.
+// bvToInt gives the mathematical value of a bit-vector symbol as an Int-sorted symbol.
+func bvToInt(pc *pathCtx, s sym) sym {
+	w := bkWidth(s.bk)
+	t := "(bv2int " + s.t + ")"
+	if bkSigned(s.bk) {
+		t = fmt.Sprintf("(ite (bvslt %s (_ bv0 %d)) (- (bv2int %s) %s) (bv2int %s))", s.t, w, s.t, new(big.Int).Lsh(big.NewInt(1), uint(w)).String(), s.t)
+	}
+	return sym{k: skInt, bk: s.bk, t: pc.def("Int", t)}
+}
+
 func symBinop(fr *frame, op token.Token, t types.Type, x, y value) value {
 	pc := fr.i.pc
+	if sx, ok := x.(sym); ok {
+		if sy, ok := y.(sym); ok && sx.k != sy.k && op != token.SHL && op != token.SHR {
+			// a machine integer next to an integer derived from a real: compare / combine as mathematical integers
+			if sx.k == skBV && sy.k == skInt {
+				x = bvToInt(pc, sx)
+			} else if sx.k == skInt && sy.k == skBV {
+				y = bvToInt(pc, sy)
+			}
+		}
+	}
 	var k symKind
 	var bk types.BasicKind
 	if sx, ok := x.(sym); ok {
